@@ -145,3 +145,23 @@ def sites():
                 out.append({"kind": "colon", "text": text, "line": base_line, "col": len((stem + prefix).encode()), "exists": mem, "prefix": prefix,
                             "stem": stem, "what": f"{ns}::{prefix}|{closing}", "head": decl + MAIN_HEAD, "tail": MAIN_TAIL})
     return out
+
+
+# one text holding every lexical form whose typing passes through a half-finished token: typed keystroke by keystroke
+# (Editor.tla, unit = "byte") every prefix of it is an editor buffer
+TYPING_TEXT = """#[derive(ToString)]
+enum Dir { Up, Dn(int32) }
+fn main() -> unit {
+    let poem = \\\\roses "é" are red
+        \\\\violets \\\\\\\\ blue
+\t\\\\
+    ;
+    let s = "a\\n\\"b\\\\\\u00e9" + poem; // é世 comment
+    let n = 12i64 + 7i64; let f = 1.5 + 2.0f64;
+    let u: uint8 = 200u8; let g = -3;
+    let t = (n >= 1i64 && !(g != 3)) || f <= 0.5;
+    let v = match Dir::Dn(1) { Dir::Up => 0, Dir::Dn(k) => k };
+    let _ = string_println(s + int32_to_string(v));
+    ()
+}
+"""
